@@ -5,12 +5,15 @@
   every clause is a theorem for ALL inputs `0 ≤ v < 2^48` (the statement asks for `< 2^47`), by the
   loop invariant of Proofs/Sqrt.lean: the result is exactly `⌊√(v·2^16)⌋`.
 
-  std::sqrt algorithm (`detail::sqrt_std_math`): `C13_std_*` are `_partial`: the model composes the
-  exact IEEE-754 model of Model/Float.lean (validated bit-for-bit against the hardware by the
-  correspondence suites of C05/C13/C16); the all-inputs accuracy theorem over that model is not
-  proved here.  The full statement is kept below as `C13_std_full`.
+  std::sqrt algorithm (`detail::sqrt_std_math`): the model composes the exact IEEE-754 model of
+  Model/Float.lean (validated bit-for-bit against the hardware by the correspondence suites of
+  C05/C13/C16).  Every clause is a theorem for ALL inputs as well (`C13_std_*`), from the rounding theory
+  of that model (Real/FloatTheory … FloatSqrt, SqrtStd): `FP.sqrt` is correctly rounded (`sqrt_spec`), the
+  scaling by 65536 is exact, the addition of 0.5 rounds once, the cast truncates; the result is `⌊W⌋` with
+  `|W − (√(v·2^16) + 1/2)| ≤ 2^-19`.  Monotonicity: two distinct arguments have roots ≥ 2^-17 apart.
 -/
 import FixedMath.Proofs.Sqrt
+import FixedMath.Real.SqrtStd
 import Mathlib.Analysis.Real.Sqrt
 
 namespace FixedMath
@@ -65,14 +68,38 @@ theorem C13_abacus_neg (v : Int) (h : v < 0) : sqrtAbacus v ⇓ lim_quiet_NaN :=
   rw [if_pos (Or.inl h)]
   rfl
 
-/-- full statement for the std::sqrt back-end (not proved; see the header) -/
-def C13_std_full : Prop :=
-  ∀ v : Int, 0 ≤ v → v < 140737488355328 →
-    ∃ r, (sqrtStd v ⇓ r) ∧ 0 ≤ r ∧ |(r : ℝ) - Real.sqrt ((v : ℝ) * 65536)| < 1
+/-- std::sqrt back-end, accuracy: every `0 ≤ v < 2^48` (the statement asks for `< 2^47`) -/
+theorem C13_std_acc (v : Int) (h0 : 0 ≤ v) (h1 : v < 281474976710656) :
+    ∃ r, (sqrtStd v ⇓ r) ∧ 0 ≤ r ∧ |(r : ℝ) - Real.sqrt ((v : ℝ) * 65536)| < 1 :=
+  sqrtStd_acc v h0 h1
 
-/-- what is proved about the std::sqrt back-end: sample points evaluated by the kernel (tests, not a proof
-    of `C13_std_full`) -/
-theorem C13_std_partial :
+/-- std::sqrt back-end: exact on squares -/
+theorem C13_std_square (n v : Int) (hn : 0 ≤ n) (hv : v * 65536 = n * n) (h1 : v < 281474976710656) :
+    sqrtStd v ⇓ n := by
+  have hv0 : 0 ≤ v := by nlinarith
+  obtain ⟨r, hr, hr0, hacc⟩ := sqrtStd_acc v hv0 h1
+  have hsq : Real.sqrt ((v : ℝ) * 65536) = (n : ℝ) := by
+    have : (v : ℝ) * 65536 = (n : ℝ) * (n : ℝ) := by exact_mod_cast hv
+    rw [this, Real.sqrt_mul_self (by exact_mod_cast hn)]
+  rw [hsq] at hacc
+  have : |((r - n : Int) : ℝ)| < 1 := by push_cast; exact hacc
+  have h2 : |r - n| < 1 := by exact_mod_cast this
+  have : r = n := by
+    have := abs_lt.mp h2
+    omega
+  rw [← this]; exact hr
+
+theorem C13_std_mono (v w : Int) (h0 : 0 ≤ v) (hvw : v ≤ w) (h1 : w < 281474976710656) :
+    ∃ r s, (sqrtStd v ⇓ r) ∧ (sqrtStd w ⇓ s) ∧ r ≤ s :=
+  sqrtStd_mono v w h0 hvw h1
+
+theorem C13_std_zero : sqrtStd 0 ⇓ 0 := R.sqrtStd_zero
+
+theorem C13_std_neg (v : Int) (h : v < 0) (hmin : -9223372036854775808 ≤ v) : sqrtStd v ⇓ lim_quiet_NaN :=
+  sqrtStd_neg v h hmin
+
+/-- kernel-evaluated sample points of the IEEE model (tests; consistent with the theorems above) -/
+theorem C13_std_points :
     (sqrtStd 0 ⇓ 0) ∧ (sqrtStd 65536 ⇓ 65536) ∧ (sqrtStd 131072 ⇓ 92682) ∧ (sqrtStd 262144 ⇓ 131072) ∧
     (sqrtStd (-1) ⇓ lim_quiet_NaN) ∧ (sqrtStd 140737488355327 ⇓ 3037000500) := by
   refine ⟨by decide +kernel, by decide +kernel, by decide +kernel, by decide +kernel, by decide +kernel, by decide +kernel⟩
